@@ -920,7 +920,8 @@ where
             }
         }
     }
-    if complete && cfg.kind.consuming() {
+    // (not under fault injection: the panic machinery itself allocates while subject code is on the stack)
+    if complete && cfg.kind.consuming() && !faulty {
         let (blocks, bytes) = sh::alloc::live();
         if blocks != 0 {
             cx.viol("C15", "leak", format!("{blocks} heap block(s) / {bytes} bytes that belonged to the consumed collection or were allocated by the iterator are still live after everything was dropped"));
